@@ -41,7 +41,12 @@ def worker(args) -> Dict[str, str]:
     spec.notifications = list(spec.notifications)[nlo:nhi]
     lg = logging.getLogger("verif-testdata")
     lg.setLevel(logging.CRITICAL)
-    return tg.generate(spec, lg)
+    try:
+        return tg.generate(spec, lg)
+    except Exception as e:  # noqa  (reported as a violation by the caller: the plugin does not terminate successfully)
+        import traceback
+
+        return {"__error__": f"{type(e).__name__}: {e}", "__trace__": traceback.format_exc()[-1500:], "__slice__": f"requests[{lo}:{hi}] notifications[{nlo}:{nhi}]"}
 
 
 def generate_all(model_path: str, n_req: int, n_not: int, shards: int = 16) -> Dict[str, str]:
@@ -231,6 +236,14 @@ def main(argv: List[str]) -> int:
     n1, ok1 = envelope_variants_check(run, mm)
     model_path = os.path.join(REPO, "generator", "lsp.json")
     data = generate_all(model_path, len(mm.requests), len(mm.notifications))
+    if "__error__" in data:
+        run.violation(
+            "testdata:generate:raises",
+            f"the testdata plugin's generate() raises on the metamodel ({data['__slice__']}): {data['__error__'][:200]}",
+            {"error": data["__error__"], "traceback": data["__trace__"], "slice": data["__slice__"], "replay": "python -m generator --plugin testdata --model <generator/lsp.json of the tree under check>"},
+            True,
+        )
+        data = {k: v for k, v in data.items() if not k.startswith("__")}
     # python converter acceptance of True vectors
     from lib.pylive import Live
 
